@@ -667,7 +667,7 @@ impl C03 {
         for l in ["10 PRINT \"T\";:RETURN", "20 PRINT \"U\":END", "30 DATA 1,2"] {
             s.command(l, 8);
         }
-        for _ in 0..rng.range(2, 7) {
+        for _ in 0..rng.range(6, 14) {
             let t = *rng.pick(&TEMPLATES);
             let through_var = rng.chance(1, 3);
             let mut st = String::new();
@@ -790,7 +790,7 @@ impl C03 {
         if rng.chance(1, 4) {
             return self.big_temp_case(rng, ctx);
         }
-        if rng.chance(1, 4) {
+        if rng.chance(1, 3) {
             return self.boundary_args_case(rng, ctx);
         }
         if rng.chance(1, 4) {
